@@ -55,7 +55,12 @@ def gen(rng, tier, n):
         cases.append(["kind mem", "plan - -", "racepub %d %d" % (rng.randint(2, 8), rng.choice([100, 300]))])
     return cases
 
+def gen_racepub(rng, tier, n):
+    return [["kind mem", "plan - -", "racepub %d %d" % (rng.randint(2, 8), rng.choice([100, 300]))] for _ in range(n)]
+
 def nontrivial(prop, lines, impl):
+    if prop == "C09":
+        return bool(impl) and impl[0] == "racepub ok"
     return bool(impl) and any(l.startswith("id ") and "delivered=-" not in l for l in impl) and any(l == "restart" for l in lines[:-3])
 
 def property_fails(prop, lines, impl, model):
